@@ -170,8 +170,16 @@ def r3_copy_hooks(ctx, rid):
         raise AnalysisError(f"{rid}: only {len(classes)} template classes found")
 
 
+def r4_repeated_run_uses_fresh_positions(ctx, rid):
+    """`run(in_place=False)` must return identical results whatever was called before on the template: the state-vector layout
+    that get_run_func/get_jacobian_func leave on the template must not influence the output positions (same rule as C06-R4)."""
+    from .c06 import r4_positions_inside_backend_variable
+    r4_positions_inside_backend_variable(ctx, rid)
+
+
 RULES = [
     ("C14-R1", r1_read_only_entry_points, 25),
     ("C14-R2", r2_in_place_false_works_on_copy, 10),
     ("C14-R3", r3_copy_hooks, 1),
+    ("C14-R4", r4_repeated_run_uses_fresh_positions, 3),
 ]
